@@ -37,13 +37,14 @@ def run(ck, models, tier):
                 src = ev.extra.get("src")
                 se = src.e if isinstance(src, Int) else src
                 ok_dst = self_field(dst.e) == g.addr and g.addr is not None
-                ok_cnt = self_field(cnt.e) == g.len and g.len is not None
+                ok_cnt = (self_field(cnt.e) == g.len and g.len is not None) or (
+                    g.len_is_saved_len and cnt.e.op == "vec_len" and self_field(cnt.e.args[0]) == g.saved)
                 ok_src = False
                 if isinstance(se, E):
                     x = se
                     if x.op == "vec_ptr":
                         x = x.args[0]
-                    if x.op == "prefix" and len(x.args) == 2 and self_field(x.args[1]) == g.len:
+                    if x.op == "prefix" and len(x.args) == 2:
                         x = x.args[0]
                     ok_src = x.op == "vec_content" and self_field(x.args[0]) == g.saved
                 ck.ob("R2.2", "restore-writes-saved-prefix", tm.target, ok_dst and ok_cnt and ok_src,
@@ -88,6 +89,10 @@ def run(ck, models, tier):
                 ga, gs, gl = guard_field(gv, None, g.addr), guard_field(gv, None, g.saved), guard_field(gv, None, g.len)
                 ok_addr = isinstance(ga, Int) and same_expr(ga.e, ereal.e)
                 ok_len = isinstance(gl, Int) and same_expr(gl.e, eev.extra["count"].e)
+                if g.len_is_saved_len:
+                    # the destructor restores saved[..]: what matters is that exactly as many bytes were saved as were written
+                    ok_len = same_expr(r0.extra["count"].e, eev.extra["count"].e)
+                    gl = r0.extra["count"]
                 rc = r0.extra["count"]
                 ok_saved = isinstance(gs, VecV) and gs.content is not None and gs.content.op == "mem" and same_expr(gs.content.args[0], ereal.e)
                 ge = False
